@@ -24,6 +24,18 @@ type Def struct {
 	Raw  string // raw command (axiom assert), emitted verbatim when any dep referenced
 	deps []string
 	idx  int
+	// axioms attached to a declared symbol: asserted in every query that uses it
+	axioms []string
+}
+
+// Axiom attaches a global fact to a declared symbol.
+func (d *Defs) Axiom(name, formula string) {
+	df := d.byName[name]
+	if df == nil {
+		return
+	}
+	df.axioms = append(df.axioms, formula)
+	df.deps = append(df.deps, d.scanDeps(formula)...)
 }
 
 // Defs is an ordered list of definitions (the passified program of one function).
@@ -141,6 +153,7 @@ func (d *Defs) Slice(terms ...string) (string, int) {
 	}
 	sort.Ints(idxs)
 	var b strings.Builder
+	var axs []string
 	for _, i := range idxs {
 		df := d.list[i]
 		if df.Body == "" {
@@ -148,6 +161,10 @@ func (d *Defs) Slice(terms ...string) (string, int) {
 		} else {
 			fmt.Fprintf(&b, "(define-fun %s () %s %s)\n", df.Name, df.Sort, df.Body)
 		}
+		axs = append(axs, df.axioms...)
+	}
+	for _, a := range axs {
+		fmt.Fprintf(&b, "(assert %s)\n", a)
 	}
 	return b.String(), len(idxs)
 }
@@ -350,9 +367,14 @@ func runPortfolio(script string, tmpdir, tag string, timeoutS int, seed int) Sol
 			_ = cmd.Run()
 			el := time.Since(start).Seconds()
 			txt := out.String()
-			first := strings.TrimSpace(txt)
-			if i := strings.IndexByte(first, '\n'); i >= 0 {
-				first = strings.TrimSpace(first[:i])
+			first := ""
+			for _, ln := range strings.Split(txt, "\n") {
+				ln = strings.TrimSpace(ln)
+				if ln == "" || strings.HasPrefix(ln, "WARNING") {
+					continue
+				}
+				first = ln
+				break
 			}
 			st := "unknown"
 			switch {
